@@ -449,7 +449,9 @@ func PushBody(p *PushSpec) []byte {
 	case "ack":
 		w.U32(refsrv.IDMsgsAck).VecI64([]int64{p.Arg})
 	case "bad-msg":
-		w.U32(refsrv.IDBadMsgNotify).I64(p.Arg).I32(1).I32(16 + int32(p.Arg&1))
+		// error_code: the documented ones and any other number (the field is an int; a newer server may know more codes)
+		codes := []int32{16, 17, 18, 19, 20, 32, 33, 34, 35, 48, 64, 0, 1, 21, 63, 65, 100, 255, 256, 321, -1, 2147483647, -2147483648}
+		w.U32(refsrv.IDBadMsgNotify).I64(p.Arg).I32(1).I32(codes[int(uint64(p.Arg)>>2)%len(codes)])
 	case "state-info":
 		w.U32(refsrv.IDMsgsStateInfo).I64(p.Arg).Str([]byte{1, 4})
 	case "all-info":
